@@ -21,7 +21,7 @@ ASSUMPTIONS = ['counter of copy i of N: $ -> i, zero padded to the run width, @M
                'under a truncating limit only copy counts and forward numbering are compared (the statement defines reverse numbering for complete repeaters)',
                '@^ (parent numbering) and numbering modifiers without any repeater are outside the statement and not generated; `*0` (exactly 0 copies) is generated without a maxRepeat limit only: under an exhausted limit the two clauses of the statement disagree about it']
 FLOORS = {'quick': {'enum:numbering': 6000, 'enum:limit': 5000, 'random': 2400, 'random:limit': 3000},
-          'thorough': {'enum:numbering': 6000, 'enum:limit': 28000, 'random': 75000, 'random:limit': 150000}}
+          'thorough': {'enum:numbering': 6000, 'enum:limit': 28000, 'random': 60000, 'random:limit': 110000}}
 REQUIRED_MONITORS = ['oracle:copies-and-counters', 'oracle:copies-direct-entry', 'probe:repeat-guard-monotone', 'probe:repeater-stack-balanced']
 
 SITE_KINDS = ['name', 'class', 'id', 'attr', 'qattr', 'attrname', 'text', 'eattr', 'ntext', 'mail']
